@@ -1180,7 +1180,15 @@ func (w *World) M12(rec *ScanRecord) []Violation {
 			if _, fatal := rec.Err.(*cloudprovider.NodeNotInNodeGroup); fatal && !notInGroupHit(rec) {
 				out = append(out, viol("C12", "scan-stopped-without-not-in-group", "RunOnce returned the fatal not-in-group error type (%s) although no removal was answered not-in-group: a non-fatal failure stopped the scan", errText(rec.Err)))
 			} else if !fatal && !strings.Contains(errText(rec.Err), "could not find node group") {
-				stopAt = -2 // undocumented error: judged by M20
+				stopAt = -2 // undocumented error: judged by M20 ...
+				if !strings.Contains(errText(rec.Err), "injected failure") {
+					for _, gr := range rec.Groups { // ... and, when it kept later groups from being looked at, a containment failure
+						if !gr.Processed {
+							out = append(out, viol("C12", "later-group-not-processed-after-undocumented-error", "RunOnce returned %s, which is none of the documented fatal conditions, and group %d was never processed", errText(rec.Err), gr.G))
+							break
+						}
+					}
+				}
 			}
 		}
 		if rec.Err == nil && stopAt == -1 {
